@@ -26,7 +26,8 @@ static OUT_VEC_T source_at_nd(ND_SIZE_T x)
   if (!VERIF_ALL(DIMS_IN, SRC_ARG_K, x)) verif_src_arg_ok = 0;
   return verif_src_value;
 }
-#define T_IN_BOX_K(k, t, sizes) ((t).m_data[k] < (sizes).m_data[k])
+/* the tuple lies in the box, and (domain) it is representable in the coordinate scalar type of the destination layer */
+#define T_IN_BOX_K(k, t, sizes) ((t).m_data[k] < (sizes).m_data[k] && (size_t)(IN_SCALAR_T)(t).m_data[k] == (t).m_data[k] && (IN_SCALAR_T)(t).m_data[k] >= 0)
 
 #if COPY_LAYER == 2
 #include "morton.h"
